@@ -1178,6 +1178,53 @@ CASES = [
  dict(name="c04-direct-format-limited-by-another-length", ids=["C04"], rule="C04.R14", subs=[("DirectFormatCodec.h", '    fmtquill::format_to_n(reinterpret_cast<char*>(buffer), len, "{}", arg);', '    fmtquill::format_to_n(reinterpret_cast<char*>(buffer), sizeof(len), "{}", arg);')]),
  dict(name="c11-refusal-path-builds-the-error-text", ids=["C11"], rule="C11.R8", subs=[("core/UnboundedSPSCQueue.h", "      if (nbytes > _max_capacity)\n      {\n        QUILL_THROW(", "      std::string const too_large = \"Message size: \" + std::to_string(nbytes);\n      if (nbytes > _max_capacity)\n      {\n        QUILL_THROW(")]),
  dict(name="c02-grow-without-commit", ids=["C02"], rule="C02.R2h", subs=[("core/UnboundedSPSCQueue.h", "    // commit previous write to the old queue before switching\n    _producer->bounded_queue.commit_write();\n\n    // We failed to reserve", "    // We failed to reserve")]),
+ dict(name="c10-prefix-fsync-on-closed-file", ids=["C10"], rule="C10.R14", subs=[("sinks/FileSink.h", """    if (!_file)
+    {
+      // the file is not open, e.g. a previous attempt to re-open it has failed
+      return;
+    }
+
+""", "")]),
+ dict(name="c18-prefix-replay-not-contained", ids=["C18", "C10"], rule="R", subs=[("backend/BackendWorker.h", """    QUILL_TRY { _dispatch_transit_event_to_sinks(transit_event, thread_id, thread_name); }
+#if !defined(QUILL_NO_EXCEPTIONS)
+    QUILL_CATCH(std::exception const& e) { _options.error_notifier(e.what()); }
+    QUILL_CATCH_ALL()
+    {
+      _options.error_notifier(std::string{"Caught unhandled exception."});
+    } // clang-format on
+#endif
+  }
+
+  /**
+   * Dispatches a transit event""", """    _dispatch_transit_event_to_sinks(transit_event, thread_id, thread_name);
+  }
+
+  /**
+   * Dispatches a transit event""")]),
+ dict(name="c18-replay-handler-rethrows", ids=["C18"], rule="C18.R2k", subs=[("backend/BackendWorker.h", """    QUILL_CATCH_ALL()
+    {
+      _options.error_notifier(std::string{"Caught unhandled exception."});
+    } // clang-format on
+#endif
+  }
+
+  /**
+   * Dispatches a transit event""", """    QUILL_CATCH_ALL()
+    {
+      _options.error_notifier(std::string{"Caught unhandled exception."});
+      throw;
+    } // clang-format on
+#endif
+  }
+
+  /**
+   * Dispatches a transit event""")]),
+ dict(name="c04-prefix-tuple-element-decoded-with-the-decoded-types-codec", ids=["C04"], rule="C04.R1", subs=[("std/Tuple.h", "    return std::tuple<decltype(Codec<Types>::decode_arg(buffer))...>{Codec<Types>::decode_arg(buffer)...};", """    std::tuple<decltype(Codec<Types>::decode_arg(buffer))...> arg;
+
+    std::apply([&buffer](auto&... elems)
+               { ((elems = Codec<std::decay_t<decltype(elems)>>::decode_arg(buffer)), ...); }, arg);
+
+    return arg;""")]),
  dict(name="c06-prefix-removed-logger-sinks-not-collected", ids=["C06"], rule="C06.R4c", subs=[(BW, """        for (std::shared_ptr<Sink> const& sink : logger->sinks)
         {
           Sink* logger_sink_ptr = sink.get();""", """        if (logger->is_valid_logger())
